@@ -46,8 +46,9 @@ ResetTo(c) ==
   /\ rv' = [p \in Recorders |-> 0] /\ rep' = [p \in Recorders |-> 0]
   /\ dpc' = [d \in Drainers |-> "idle"] /\ dop' = [d \in Drainers |-> "none"]
   /\ todo' = [d \in Drainers |-> {}] /\ csnap' = [d \in Drainers |-> EF] /\ gsnap' = [d \in Drainers |-> EF]
+  /\ buf' = [d \in Drainers |-> EF] /\ nbeg' = [d \in Drainers |-> EF]
   /\ desc' = EF /\ dfirst' = EF /\ out' = {}
-  /\ upd' = [d \in Drainers |-> FALSE] /\ pclean' = FALSE /\ twiceOK' = TRUE /\ faithful' = TRUE
+  /\ upd' = [d \in Drainers |-> FALSE] /\ pclean' = FALSE /\ twiceOK' = TRUE /\ faithful' = TRUE /\ bounded' = TRUE
 
 \* CF05a is reported where a render of the real code confirms it: the exposition equals the model's
 \* in a state where the model has a sample in `lost` (i.e. the count really is short by exactly those)
